@@ -1904,10 +1904,9 @@ impl Bgi {
             }
 
             match self.button_style.orientation {
-                LabelOrientation::Above => todo!(),
-                LabelOrientation::Left => todo!(),
-                LabelOrientation::Right => todo!(),
-                LabelOrientation::Below => todo!(),
+                LabelOrientation::Above | LabelOrientation::Left | LabelOrientation::Right | LabelOrientation::Below => {
+                    log::warn!("RIP button label orientation {:?} is not implemented, label not drawn", self.button_style.orientation);
+                }
 
                 LabelOrientation::Center => {
                     let old_col = self.get_color();
